@@ -13,7 +13,7 @@ ASSUMPTIONS = ["PARTIAL: the link 'every derivation tree of a text has the abstr
 
 
 def run(ctx):
-    n = 160 if ctx["tier"] == "quick" else 4000
+    n = 160 * ctx.get("boost", 1) if ctx["tier"] == "quick" else 4000
     shards = 8
 
     def one(k):
